@@ -97,3 +97,17 @@ pub fn instant_at(s: u64, n: u32) -> Instant {
 pub fn secs_f64(s: u64, n: u32) -> f64 {
     (s as f64) + (n as f64) / 1e9
 }
+
+
+/// `f32::powi` model: exact repeated multiplication for the small non-negative exponents the crate
+/// uses (powi(x, 2) is x*x in LLVM as well).  Kani's built-in model of the powi intrinsic is an
+/// over-approximation (arbitrary result), which produces spurious counterexamples.
+pub fn powi_f32_model(x: f32, n: i32) -> f32 {
+    let mut r = 1.0f32;
+    let mut i = 0;
+    while i < n && i < 4 {
+        r *= x;
+        i += 1;
+    }
+    r
+}
